@@ -109,6 +109,40 @@ static Reg r_zwriterand("z.writerand", [](const std::vector<std::string> &a) -> 
   return "ok " + path + " " + std::to_string(total) + " " + std::to_string(crc) + " " + take_trace();
 });
 
+// z.gzcompressrand <seed> <count> <minlen> <maxlen>: GZCompress on <count> pseudo-random semi-compressible bodies (words from a
+// small vocabulary, so that deflate emits blocks at irregular output offsets); every result is expanded with zlib's inflate
+// and compared.  -> ok <count> <total in> <total out>  |  FAIL body <k> len <n> seed <s>: <what>
+static Reg r_gzcrand("z.gzcompressrand", [](const std::vector<std::string> &a) -> std::string {
+  if (a.size() != 4) return "bad-op";
+  unsigned long long x = strtoull(a[0].c_str(), NULL, 10) * 6364136223846793005ULL + 1442695040888963407ULL;
+  size_t count = strtoul(a[1].c_str(), NULL, 10), lo = strtoul(a[2].c_str(), NULL, 10), hi = strtoul(a[3].c_str(), NULL, 10);
+  auto rnd = [&x]() { x = x * 6364136223846793005ULL + 1442695040888963407ULL; return (unsigned)(x >> 33); };
+  size_t tin = 0, tout = 0;
+  std::string body, gz, back;
+  for (size_t k = 0; k < count; ++k) {
+    size_t n = lo + rnd() % (hi - lo + 1);
+    unsigned vocab = 50 + rnd() % 5000;
+    body.clear();
+    while (body.size() < n) { body += "w" + std::to_string(rnd() % vocab); body.push_back((rnd() % 9) ? ' ' : '\n'); }
+    body.resize(n);
+    try { util::GZCompress(body, gz); } catch (const std::exception &e) { return "FAIL body " + std::to_string(k) + " len " + std::to_string(n) + ": exception " + e.what(); }
+    back.assign(n + 64, 0);
+    z_stream zs; memset(&zs, 0, sizeof zs);
+    if (inflateInit2(&zs, 31) != Z_OK) return "ERR:inflateInit";
+    zs.next_in = reinterpret_cast<Bytef *>(&gz[0]); zs.avail_in = (uInt)gz.size();
+    zs.next_out = reinterpret_cast<Bytef *>(&back[0]); zs.avail_out = (uInt)back.size();
+    int rc = inflate(&zs, Z_FINISH);
+    size_t got = back.size() - zs.avail_out;
+    bool clean = rc == Z_STREAM_END && zs.avail_in == 0;
+    inflateEnd(&zs);
+    if (!clean || got != n || memcmp(back.data(), body.data(), n))
+      return "FAIL body " + std::to_string(k) + " len " + std::to_string(n) + " (seed " + a[0] + "): the gzip member of " + std::to_string(gz.size()) +
+             " bytes " + (clean ? "expands to other bytes" : "is not one valid gzip stream (inflate rc " + std::to_string(rc) + ", " + std::to_string(zs.avail_in) + " bytes left over)");
+    tin += n; tout += gz.size();
+  }
+  return "ok " + std::to_string(count) + " " + std::to_string(tin) + " " + std::to_string(tout);
+});
+
 // z.read <sched|-> <amounts csv> <hexblob>  -> ok <hex bytes> <returned counts csv> [ERR:kind] <trace>
 static Reg r_zread("z.read", [](const std::vector<std::string> &a) -> std::string {
   std::string blob;
